@@ -538,6 +538,7 @@ class QueryGen:
         aggregation, useless-order) key on."""
         r = self.rng
         sides = []
+        both_asc = self.rng2.random() < 0.4     # both inputs ascending (what a merge join needs), often with a second sort column
         for _ in range(2):
             t = r.choice(self.tables)
             ints = [c for c in t.cols if c.typ == "INT"]
@@ -547,6 +548,9 @@ class QueryGen:
             other = r.choice(t.cols)
             a_in, a_out = self.new_alias(), self.new_alias()
             direction = " DESC" if r.random() < 0.5 else ""
+            if both_asc:
+                # a secondary order of the input: a join emits it per pair of rows, not per key
+                direction = ", c1" if self.rng2.random() < 0.7 else ""
             where = f" WHERE {self.bool_expr(self.table_scope(t, a_in), 1)}" if r.random() < 0.3 else ""
             sql = f"(SELECT {a_in}.{kcol.name} AS c0, {a_in}.{other.name} AS c1 FROM {t.name} AS {a_in}{where} ORDER BY c0{direction}) AS {a_out}"
             self.origin[f"{a_out}.c0"] = f"{a_in}.{kcol.name}"
@@ -558,6 +562,8 @@ class QueryGen:
         self.tag("derived")
         self.tag("join:" + k.split()[0].lower())
         cond = f"{sides[0][1][0][0]} = {sides[1][1][0][0]}"
+        self.sj_cols = [c[0] for c in sides[0][1]] + [c[0] for c in sides[1][1]]
+        self.sj_types = [c[1] for c in sides[0][1]] + [c[1] for c in sides[1][1]]
         if r.random() < 0.2:
             cond += " AND " + self.bool_expr(sides[0][1] + sides[1][1], 1)
             self.tag("join_residual")
@@ -703,6 +709,12 @@ class QueryGen:
                 e, ty = self.any_expr(scope)
                 items.append(e)
                 types.append(ty)
+            if getattr(self, "sj_cols", None) and allow_order and self.rng2.random() < 0.6:
+                # the four columns of a join of two sorted inputs, ordered by one side's key and second column (the order the
+                # input arrived in): an order the join does not preserve under duplicate keys
+                items, types = list(self.sj_cols), list(self.sj_types)
+                side = 2 if self.rng2.random() < 0.6 else 0
+                self.sj_order = [(side, False), (side + 1, False)]
             if notnull_test:
                 items.append(notnull_test)
                 types.append("BOOLEAN")
@@ -807,7 +819,12 @@ class QueryGen:
         self.single_pk = None
         if self.f.get("bare_scan") and self.rng2.random() < 0.07:
             return self.bare_query()
+        self.sj_cols = self.sj_order = None
         core = self.select_core()
+        if self.sj_order and not ({"agg", "distinct"} & self.tags):
+            self.tag("sorted_join_order")
+            sql = core["sql"] + " ORDER BY " + ", ".join(self.sj_cols[i] for i, _ in self.sj_order)   # (cN alone is ambiguous here)
+            return Q(sql, self.tags, core["n"], list(self.sj_order), False)
         hidden_pk = self.single_pk if not ({"agg", "distinct", "derived", "sorted_join"} & self.tags) else None
         sql = core["sql"]
         n = core["n"]
